@@ -104,10 +104,17 @@ def start(name):
         c.emplace_gate('g1', G.LNOT, ('g0', 'x0'))
         c.set_outputs(['g1', 'g1'])
         return c
+    if name == 'S5':
+        c.add_inputs(['x0', 'x1', 's'])
+        c.emplace_gate('g0', G.AND, ('x0', 'x1'))
+        c.emplace_gate('g1', G.LNOT, ('g0', 'g0'))
+        c.set_outputs(['g1', 'g0'])
+        c.make_block('K', ['g0'], ['g0', 'x0'], ['s', 'x0'])
+        return c
     raise KeyError(name)
 
 
-START_NAMES = ('S0', 'S1', 'S2', 'S3', 'S4')
+START_NAMES = ('S0', 'S1', 'S2', 'S3', 'S4', 'S5')
 
 
 # -- operations ---------------------------------------------------------------------
@@ -185,6 +192,20 @@ def replay(start_name, hist):
     return c
 
 
+def warm_up(c):
+    """Query the circuit before it is mutated, so that anything the library might remember between calls
+    (orders, tables) exists and would have to be invalidated by the mutation."""
+    try:
+        c.evaluate_full_circuit({i: False for i in c.inputs})
+        list(c.top_sort(inverse=True))
+        list(c.top_sort())
+        c.get_truth_table()
+        for b in c.blocks.values():
+            b.into_circuit()
+    except Exception:  # noqa: BLE001
+        pass
+
+
 def canon(c):
     """Canonical state: everything a future call can observe."""
     net = refmodel.abstract(c)
@@ -250,7 +271,8 @@ def menu(c, level='full'):
         for sub in itertools.combinations(nonin, r):
             m.append(['make_block', bfresh, list(sub), [sub[-1]], None])
     if nonin and ins:
-        m.append(['make_block', bfresh, [nonin[0]], [], [ins[0]]])
+        for i_ in ins:
+            m.append(['make_block', bfresh, [nonin[0]], [i_], [i_]])
     for g in nonin:
         m.append(['make_block_from_slice', bfresh, ins, [g]])
         ops_ = list(c.get_gate(g).operands)
@@ -349,6 +371,7 @@ def explore(start_name, prefix, depth, acc, monitor, level='full', menu_fn=None,
                 h2 = hist + [op]
                 try:
                     c2 = replay(start_name, hist)
+                    warm_up(c2)
                     c2 = apply_op(c2, op)
                 except Exception as e:  # noqa: BLE001
                     acc.count(f'raises:{op[0]}:{type(e).__name__}')
